@@ -302,7 +302,8 @@ func (a *agg) finish(quick bool) (broken []string) {
 			}
 		}
 		for _, key := range []string{"fds_obtained", "followups_attempted", "dirfd_relative_attempted", "read_checks", "snapshots_compared",
-			"sessions_with_hostile_siblings", "sessions_without_siblings", "setup:siblings", "setup:reverse", "setup:nested"} {
+			"sessions_with_hostile_siblings", "sessions_without_siblings", "sessions_ancestor_used_before_derivation",
+			"sessions_config_used_between_derivation_and_test", "sessions_module_config_derived_from_instantiated_one", "setup:siblings", "setup:reverse", "setup:nested"} {
 			if a.perMount[m][key] == 0 {
 				broken = append(broken, fmt.Sprintf("%s is 0 on %s", key, m))
 			}
